@@ -7,6 +7,8 @@ import Larking.Model.Metadata
 import Larking.Model.StreamCodec
 import Larking.Model.Selector
 import Larking.Model.Negotiate
+import Larking.Model.Trie
+import Larking.Gen.Lexer
 namespace Larking.Driver
 open Larking.Status
 
@@ -128,7 +130,131 @@ def handleC04 : List String → Option String
       pure (toHex (Negotiate.negotiateContentEncoding (Negotiate.parseAccept ls) os))
   | _ => none
 
-def handlers : List (List String → Option String) := [handleC05, handleC14C15, handleC17, handleC19, handleC04]
+/-! ### routing -/
+open Lexer Trie in
+/-- runes: `hex.ch.flags` joined by `_` (`-` = empty); flags: letter=1 ident=2 literal=4 path=8 -/
+def parseRunes (s : String) : Option (List Lexer.Rune) :=
+  if s == "-" || s.isEmpty then some [] else
+  (s.splitOn "_").mapM fun it =>
+    match it.splitOn "." with
+    | [h, ch, fl] => do
+        let b ← hexArg h
+        let c ← ch.toNat?
+        let f ← fl.toNat?
+        pure { bytes := b, ch := c, letter := f % 2 == 1, ident := f / 2 % 2 == 1,
+               literal := f / 4 % 2 == 1, path := f / 8 % 2 == 1 }
+    | _ => none
+
+def showToks (ts : List Lexer.Tok) : String :=
+  " ".intercalate (ts.map fun t => t.typ.name ++ ":" ++ toHex t.val)
+
+def showLex : Outcome (List Lexer.Tok) → String
+  | .ok ts => "ok " ++ showToks ts
+  | .err k => "err " ++ k
+  | .panic _ => "panic"
+
+/-- resolve table: `keyhex.keyhex:id:kind|…` (kind S = any text converts, X = nothing converts,
+I = int32 text) -/
+def parseTable (s : String) : List (List Bytes × Nat × String) :=
+  if s == "-" || s.isEmpty then [] else
+  (s.splitOn "|").filterMap fun it =>
+    match it.splitOn ":" with
+    | [ks, id, kind] => do
+        let keys ← (ks.splitOn ".").mapM hexArg
+        let i ← id.toNat?
+        pure (keys, i, kind)
+    | _ => none
+
+structure DBinding where
+  mid : Nat
+  kind : String
+  b : Trie.Binding
+  table : List (List Bytes × Nat × String)
+
+/-- binding: `mid,rule,kind,verbhex,tmplrunes,bodyOk,respOk,table` -/
+def parseBinding (s : String) : Option DBinding :=
+  match s.splitOn "," with
+  | [mid, rule, kind, verb, tmpl, bok, rok, table] => do
+      let m ← mid.toNat?
+      let r ← rule.toNat?
+      let v ← hexArg verb
+      let t ← parseRunes tmpl
+      pure { mid := m, kind := kind, table := parseTable table,
+             b := { verb := v, tmpl := t, bodyOk := bok == "1", respOk := rok == "1", rule := r } }
+  | _ => none
+
+def resolveOf (table : List (List Bytes × Nat × String)) (keys : List Bytes) : Option Nat :=
+  (table.find? fun e => e.1 == keys).map (·.2.1)
+
+def isIntText (b : Bytes) : Bool :=
+  if b == [110, 117, 108, 108] then true else   -- "null": json.Unmarshal leaves the zero value
+  match b with
+  | 45 :: d :: rest => (d :: rest).all (fun c => 48 ≤ c.toNat && c.toNat ≤ 57) && (d != 48 || rest.isEmpty) && rest.length < 9
+  | d :: rest => (d :: rest).all (fun c => 48 ≤ c.toNat && c.toNat ≤ 57) && (d != 48 || rest.isEmpty) && rest.length < 9
+  | [] => false
+
+def digitsNat (b : Bytes) : Nat := b.foldl (fun acc c => acc * 10 + (c.toNat - 48)) 0
+
+/-- text `encoding/json` unmarshals into an int32 / uint32 (also `null`, which leaves zero). -/
+def isInt32Text (b : Bytes) : Bool :=
+  if b == [110, 117, 108, 108] then true else
+  let (neg, ds) := match b with | 45 :: r => (true, r) | r => (false, r)
+  !ds.isEmpty && ds.all (fun c => 48 ≤ c.toNat && c.toNat ≤ 57) && (ds.length == 1 || ds.head? != some 48) &&
+    ds.length ≤ 10 && (if neg then digitsNat ds ≤ 2147483648 else digitsNat ds ≤ 2147483647)
+
+def isUint32Text (b : Bytes) : Bool :=
+  if b == [110, 117, 108, 108] then true else
+  !b.isEmpty && b.all (fun c => 48 ≤ c.toNat && c.toNat ≤ 57) && (b.length == 1 || b.head? != some 48) &&
+    b.length ≤ 10 && digitsNat b ≤ 4294967295
+
+/-- group bindings into rules (P starts a rule; A / N are its additional bindings) and add them
+one after the other; stops at the first error like `appendHandler` does. Returns the trie after
+the last *successful* rule and the per-rule outcomes. -/
+def groupBindings (bs : List DBinding) : List (DBinding × List DBinding) :=
+  bs.foldl (fun (acc : List (DBinding × List DBinding)) b =>
+    if b.kind == "P" then acc ++ [(b, [])]
+    else match acc.reverse with
+      | (p, adds) :: restRev => restRev.reverse ++ [(p, adds ++ [b])]
+      | [] => acc) []
+
+def buildTrie (cap : Nat) (bs : List DBinding) : Trie.Node × List String :=
+  (groupBindings bs).foldl (fun (acc : Trie.Node × List String) g =>
+    let (p, adds) := g
+    let rule : Trie.Rule := { primary := p.b, additional := adds.map fun a => (a.b, a.kind == "N") }
+    match Trie.addRule cap (resolveOf p.table) acc.1 rule p.mid with
+    | .ok n => (n, acc.2 ++ ["ok"])
+    | .err k => (acc.1, acc.2 ++ ["err:" ++ k])
+    | .panic _ => (acc.1, acc.2 ++ ["panic"])) (Trie.Node.empty, [])
+
+def convOf (bs : List DBinding) (fp : Nat) (text : Bytes) : Bool :=
+  match (bs.flatMap (·.table)).find? (fun e => e.2.1 == fp) with
+  | some (_, _, "S") => true
+  | some (_, _, "I") => isInt32Text text
+  | some (_, _, "U") => isUint32Text text
+  | _ => false
+
+def showSRes : Trie.SRes → String
+  | .found m caps => s!"found {m.mid} " ++ ";".intercalate (caps.map fun c =>
+      (match c.1 with | some fp => toString fp | none => "_") ++ "=" ++ toHex c.2)
+  | .fail e => "fail " ++ e.name
+  | .panic _ => "panic"
+
+def handleRouting : List String → Option String
+  | ["lextmpl", r] => (parseRunes r).map fun rs => showLex (Lexer.lexTemplate Gen.tokenCap rs)
+  | ["lexpath", r] => (parseRunes r).map fun rs => showLex (Lexer.lexPath Gen.tokenCap rs)
+  | ["addrules", bindings] => do
+      let bs ← (bindings.splitOn ";").mapM parseBinding
+      pure (" ".intercalate (buildTrie Gen.tokenCap bs).2)
+  | ["route", bindings, verb, path] => do
+      let bs ← (if bindings == "-" then some [] else (bindings.splitOn ";").mapM parseBinding)
+      let v ← hexArg verb
+      let p ← parseRunes path
+      let (t, _) := buildTrie Gen.tokenCap bs
+      pure (showSRes (Trie.matchPath Gen.tokenCap (convOf bs) t p v))
+  | _ => none
+
+def handlers : List (List String → Option String) :=
+  [handleC05, handleC14C15, handleC17, handleC19, handleC04, handleRouting]
 
 def handle (args : List String) : String :=
   match handlers.findSome? (fun h => h args) with
